@@ -56,8 +56,12 @@ br_rsa_oaep_pad(const br_prng_class **rnd, const br_hash_class *dig,
 	/*
 	 * Compute actual modulus length (in bytes).
 	 */
+	/*
+	 * Mathematical length of the modulus: leading (most significant)
+	 * zero bytes of its representation do not count.
+	 */
 	k = pk->nlen;
-	while (k > 0 && pk->n[k - 1] == 0) {
+	while (k > 0 && pk->n[pk->nlen - k] == 0) {
 		k --;
 	}
 
